@@ -97,6 +97,12 @@ def finish(mod, ctx, agg, coverage):
     classes = {}
     for v in new:
         classes.setdefault(report.class_key(v), []).append(v)
+    hist = {}
+    for v in new:
+        k = f"{v['fields'].get('kind')}/{v['fields'].get('sub')}"
+        hist[k] = hist.get(k, 0) + 1
+    if hist:
+        report.log(f"[{pid}] new violation histogram (kind/sub): " + ", ".join(f"{k}={n}" for k, n in sorted(hist.items())))
     unreproduced = []
     confirmed = []
     reps = [vs[0] for vs in classes.values()]
